@@ -1089,8 +1089,15 @@ func (g *gate) Read(p []byte) (int, error) {
 		w.mu.Lock()
 		relaxed := wt.Obs.Hint != "" || wt.Obs.Local == "menu-select" || wt.Obs.Local == "isearch"
 		wt.ScreenVerdict = vt.CheckInput(w.term, r.promptLast, []rune(wt.Obs.Line), wt.Obs.Pos, relaxed, 5)
-		if wt.ScreenVerdict != "" && w.term2 != nil && vt.CheckInput(w.term2, r.promptLast, []rune(wt.Obs.Line), wt.Obs.Pos, relaxed, 5) == "" {
-			wt.ScreenVerdict = "" // correct on terminals that do not erase the last cell at a pending wrap
+		if w.term2 != nil {
+			// the picture must be right under BOTH common erase-at-margin behaviours (see vt.Term.LaxEraseAtMargin):
+			// a display that is only right on terminals that erase nothing at a pending wrap loses glyphs on xterm
+			v2 := vt.CheckInput(w.term2, r.promptLast, []rune(wt.Obs.Line), wt.Obs.Pos, relaxed, 5)
+			if wt.ScreenVerdict != "" && v2 == "" {
+				wt.ScreenVerdict = "xterm-erase-at-margin: " + wt.ScreenVerdict
+			} else if wt.ScreenVerdict == "" && v2 != "" {
+				wt.ScreenVerdict = "no-erase-at-margin: " + v2
+			}
 		}
 		wt.Unknown = append([]string{}, w.term.Unknown...)
 		w.mu.Unlock()
